@@ -4,20 +4,25 @@
   Wharf/Proofs/Commit.lean proves the commit correct under `NKC` (no path changes kind).  Here the same
   conclusion is proved under the weaker `BKC` ("benign kind changes"), which allows
     symlink -> file, dir(empty) -> file        (the file being staged or the output of a transposition),
-    file -> dir, file -> symlink               (the old file not being a transposition source),
+    file -> dir                                (the old file not being a transposition source),
     symlink -> dir,
-    dir -> symlink                             (no transposition source below the directory),
+    file -> symlink, dir -> symlink            (whatever becomes of the old file or of what is below the directory),
   provided a directory that replaces a file or a symlink is listed before the directories below it.
 
   What changes with respect to Commit.lean:
-  * `ensureDir` / `ensureSymlink` now really remove what is in the way (`ensureDir_spec'`,
-    `ensureSymlink_spec'`: the latter erases a whole subtree), so the state after `ensureAll` (`Ensured'`) is the
-    old tree with the new directories and symlinks in place and NOTHING below the new symlinks;
+  * `ensureDir` now really removes what is in the way (`ensureDir_spec'`); the state after `ensureDirs` is
+    described by the same `Ensured` as under `NKC` (the new directories are in place, everything else is as in
+    the old tree), only it comes about differently (`ensureDirsPhase_spec'`);
   * the transposition phase is reused as it is (`transp_core` only needs: outputs are `XSlot`s, temporary names
     are free, sources are still there), with the new file paths as soft paths: an output may land on an old
-    symlink or on an empty old directory, which `copy` and `move` remove first (`Ensured'.xslot_of_newfile`);
+    symlink or on an empty old directory, which `copy` and `move` remove first (`Ensured.xslot_of_newfile`);
   * staged moves may land on a symlink or on an empty directory (`stageFold_spec'`), so the tree after the
     moves is described by frames rather than by `SameNF`;
+  * `ensureSymlink` now really removes what is in the way too (`ensureSymlink_spec'`: a directory goes with its
+    whole subtree).  Since the repair of finding F27 the symlink pass runs AFTER the transpositions, the staged
+    moves and the overlays, on a tree in which all new directories and files are in place; it leaves them alone
+    because no path of the new build is the path of a new symlink or lies below one (`BWF.not_below_symlink`);
+    afterwards there is NOTHING below the new symlinks (`ensureSymlinks_spec'`, `finish_spec'`);
   * ghost deletion meets ghosts whose parent chain is no longer made of directories: they sit below a new
     symlink, and are skipped (`ghostFold_spec`; before the repair of finding F25 they were looked up THROUGH the
     symlink, and the predicate had to make sure that led nowhere).
@@ -95,7 +100,7 @@ theorem plain_of_get {t : Tree} (hI : TInv t) {p : Path} {n : Node} (hp : p ≠ 
     (hg : t.get p = some n) : Plain t p :=
   ⟨hp, hI.parent _ (get_mem hp hg), fun h => hdd (mem_of_mem_dropLast h)⟩
 
-/-! ### `ensureDirsAndSymlinks` when something is in the way -/
+/-! ### `ensureDirs`, `ensureSymlinks` when something is in the way -/
 
 /-- `ensureDir` on a path whose strict prefixes are directories or missing: whatever the path holds (nothing, a
     directory, a regular file, a symlink), afterwards it and its prefixes are directories and nothing else has
@@ -386,14 +391,15 @@ theorem ensureSymlinks_spec' : ∀ (L : List (Path × String)) (t : Tree), TInv 
 
 /-! ### benign kind changes -/
 
-/-- Benign kind changes (mirror of `C02.BenignKindChanges`). -/
+/-- Benign kind changes (mirror of `C02.BenignKindChanges`).  Since the repair of finding F27 (the new symlinks
+    are put in place after the transpositions, the staged moves and the overlays) nothing is asked of a path that
+    becomes a symlink: what stood there, and below it, is still in place while the files are renamed and copied,
+    and goes away afterwards. -/
 structure BKC (old new : Build) (w : Work) : Prop where
   /-- dir → file: the old directory is empty -/
   emptyDir : ∀ p, p ∈ old.dirs → p ∈ new.files.map (·.1) → ∀ q ∈ pathsOf old, isPrefix p q = false
-  /-- file → dir, file → symlink: the old file is not a transposition source -/
-  sources : ∀ p ∈ srcsOf old new w, p ∉ new.dirs ∧ p ∉ new.symlinks.map (·.1)
-  /-- dir → symlink: no transposition source below (the old paths below it are ghosts, skipped by `deleteGhosts`) -/
-  dirToSymlink : ∀ e ∈ new.symlinks, e.1 ∈ old.dirs → ∀ q ∈ srcsOf old new w, isPrefix e.1 q = false
+  /-- file → dir: the old file is not a transposition source (it is cleared by `ensureDirs`, which runs first) -/
+  sources : ∀ p ∈ srcsOf old new w, p ∉ new.dirs
   /-- file → dir, symlink → dir: the replaced path is listed before the new directories below it -/
   dirOrder : new.dirs.Pairwise (fun a b => isPrefix b a = true →
     b ∉ old.files.map (·.1) ∧ b ∉ old.symlinks.map (·.1))
@@ -435,20 +441,16 @@ theorem tsOf_new {old new : Build} {w : Work} {tr : Transpo} (h : tr ∈ tsOf ol
   obtain ⟨st, _, d, d', e1, _⟩ := mem_tsOf.mp h
   exact List.mem_map.mpr ⟨_, List.mem_of_getElem? e1, rfl⟩
 
-/-! ### the state after `ensureAll`, with kind changes -/
+/-! ### the state after `ensureDirs`, with kind changes
 
-/-- `t₁` is `t₀` with the new directories and symlinks in place, and nothing below the new symlinks. -/
-structure Ensured' (new : Build) (t₀ t₁ : Tree) : Prop where
-  inv : TInv t₁
-  dirs : ∀ p ∈ new.dirs, t₁.get p = some .dir
-  symlinks : ∀ e ∈ new.symlinks, t₁.get e.1 = some (.symlink e.2)
-  other : ∀ q, q ∉ new.dirs → q ∉ new.symlinks.map (·.1) →
-    t₁.get q = if ∃ e ∈ new.symlinks, isPrefix e.1 q = true then none else t₀.get q
+  The state is described by `Ensured` (Wharf/Proofs/Commit.lean) as under `NKC`: the new directories are in
+  place, everything else is as in the old tree.  What differs is how it comes about — an old file or symlink
+  standing where a new directory goes is removed (`ensureDirs_spec'`, which needs `dirOrder`). -/
 
-theorem ensureAll_spec' {old new : Build} (ho : BWF old) (hn : BWF new)
+theorem ensureDirsPhase_spec' {old new : Build} (ho : BWF old) (hn : BWF new)
     (hord : new.dirs.Pairwise (fun a b => isPrefix b a = true →
       b ∉ old.files.map (·.1) ∧ b ∉ old.symlinks.map (·.1))) :
-    ∃ t₁, ensureAll new (treeOfBuild old) = .ok t₁ ∧ Ensured' new (treeOfBuild old) t₁ := by
+    ∃ t₁, new.dirs.foldlM ensureDir (treeOfBuild old) = .ok t₁ ∧ Ensured new (treeOfBuild old) t₁ := by
   have hI0 := tinv_treeOfBuild ho
   obtain ⟨td, h1, hId, hdd, hfd, _⟩ := ensureDirs_spec' (· ∈ new.dirs)
     (fun p hp j hj => take_mem_dirs hn hp hj)
@@ -464,116 +466,29 @@ theorem ensureAll_spec' {old new : Build} (ho : BWF old) (hn : BWF new)
         · exact absurd h h2
         · exact absurd h h1
       · exact Or.inr (get_none_treeOfBuild (hn.ne (mem_pathsOf.mpr (Or.inl hb))) hbo)))
-  have hLs : ∀ e ∈ new.symlinks, Plain td e.1 := by
-    intro e he
-    have hes : e.1 ∈ new.symlinks.map (·.1) := List.mem_map.mpr ⟨e, he, rfl⟩
-    have hep : e.1 ∈ pathsOf new := mem_pathsOf.mpr (Or.inr (Or.inl hes))
-    refine ⟨hn.ne hep, ?_, fun h => hn.nodd hep (mem_of_mem_dropLast h)⟩
-    rcases hn.parent_mem hep with h0 | h0
-    · rw [h0]; exact isDir_nil _
-    · exact hdd _ h0
-  obtain ⟨t₁, h2, hI1, hs1, hf1⟩ := ensureSymlinks_spec' new.symlinks td hId hn.symlinks_nodup
-    (fun e he e' he' => hn.not_below_symlink
-      (mem_pathsOf.mpr (Or.inr (Or.inl (List.mem_map.mpr ⟨e', he', rfl⟩)))) he) hLs
-  refine ⟨t₁, by simp only [ensureAll, bind, Except.bind, h1, h2], hI1, ?_, hs1, ?_⟩
-  · intro p hp
-    rw [hf1 p (hn.dir_not_symlink hp), if_neg]
-    · exact hdd p hp
-    · rintro ⟨e, he, hpre⟩
-      have := hn.not_below_symlink (mem_pathsOf.mpr (Or.inl hp)) he
-      rw [hpre] at this
-      cases this
-  · intro q hq1 hq2
-    rw [hf1 q hq2, hfd q hq1]
+  exact ⟨td, h1, hId, hdd, hfd⟩
 
-theorem Ensured'.plain_of_new {old new : Build} (hn : BWF new) {t₁ : Tree}
-    (he : Ensured' new (treeOfBuild old) t₁) {p : Path} (hp : p ∈ pathsOf new) : Plain t₁ p := by
-  refine ⟨hn.ne hp, ?_, fun h => hn.nodd hp (mem_of_mem_dropLast h)⟩
-  rcases hn.parent_mem hp with h0 | h0
-  · rw [h0]; exact isDir_nil _
-  · exact he.dirs _ h0
-
-/-- a new file path still holds what the old build had there -/
-theorem Ensured'.get_newfile {old new : Build} (hn : BWF new) {t₁ : Tree}
-    (he : Ensured' new (treeOfBuild old) t₁) {p : Path} (hp : p ∈ new.files.map (·.1)) :
-    t₁.get p = (treeOfBuild old).get p := by
-  have hpn : p ∈ pathsOf new := mem_pathsOf.mpr (Or.inr (Or.inr hp))
-  rw [he.other p (fun h => hn.dir_not_file h hp) (fun h => hn.symlink_not_file h hp), if_neg]
-  rintro ⟨e, he', hpre⟩
-  have := hn.not_below_symlink hpn he'
-  rw [hpre] at this
-  cases this
-
-theorem Ensured'.slot_of_temp {old new : Build} (hn : BWF new) {t₁ : Tree}
-    (he : Ensured' new (treeOfBuild old) t₁) {p : Path} (hp : p ∈ new.files.map (·.1)) {k : Nat}
-    (hnot : seedName p k ∉ pathsOf old ++ pathsOf new) :
-    Slot t₁ (seedName p k) ∧ t₁.get (seedName p k) = none := by
-  have hpn : p ∈ pathsOf new := mem_pathsOf.mpr (Or.inr (Or.inr hp))
-  have hne := hn.ne hpn
-  have hpl := he.plain_of_new hn hpn
-  simp only [List.mem_append, not_or] at hnot
-  have hg : t₁.get (seedName p k) = none := by
-    rw [he.other _ (fun h => hnot.2 (mem_pathsOf.mpr (Or.inl h)))
-      (fun h => hnot.2 (mem_pathsOf.mpr (Or.inr (Or.inl h))))]
-    split
-    · rfl
-    · exact get_none_treeOfBuild (seedName_ne_nil hne k) hnot.1
-  refine ⟨⟨⟨seedName_ne_nil hne k, ?_, ?_⟩, by rw [hg]; rfl⟩, hg⟩
-  · rw [seedName_dropLast hne]; exact hpl.parent
-  · rw [seedName_dropLast hne]; exact hpl.nodd
-
-/-- an old path that has no new symlink above it and whose old parent chain survives -/
-theorem Ensured'.not_below_of_src {old new : Build} {w : Work} (ho : BWF old) (hn : BWF new)
-    (hb : BKC old new w) {p : Path} (hs : p ∈ srcsOf old new w) {e : Path × String}
-    (he : e ∈ new.symlinks) : isPrefix e.1 p = false := by
-  cases hh : isPrefix e.1 p with
-  | false => rfl
-  | true =>
-    have hpo : p ∈ pathsOf old := mem_pathsOf.mpr (Or.inr (Or.inr (srcsOf_old hs)))
-    have hes : e.1 ∈ new.symlinks.map (·.1) := List.mem_map.mpr ⟨e, he, rfl⟩
-    have hd := ho.prefix_mem_dirs hpo (hn.ne (mem_pathsOf.mpr (Or.inr (Or.inl hes)))) hh
-    have := hb.dirToSymlink e he hd p hs
-    rw [hh] at this
-    cases this
-
-/-- a transposition source is still there, with its old content, after `ensureAll` -/
-theorem Ensured'.oldFile {old new : Build} {w : Work} (ho : BWF old) (hn : BWF new) (hb : BKC old new w)
-    {t₁ : Tree} (he : Ensured' new (treeOfBuild old) t₁) {p : Path} {d : List Byte}
+/-- a transposition source is still there, with its old content, after `ensureDirs`: it has not become a
+    directory (`sources`), and the directories above it are still directories -/
+theorem Ensured.oldFile' {old new : Build} {w : Work} (ho : BWF old) (hb : BKC old new w)
+    {t₁ : Tree} (he : Ensured new (treeOfBuild old) t₁) {p : Path} {d : List Byte}
     (hs : p ∈ srcsOf old new w) (hp : (p, d) ∈ old.files) :
     Plain t₁ p ∧ t₁.get p = some (.file d) := by
   have hpf : p ∈ old.files.map (·.1) := List.mem_map.mpr ⟨_, hp, rfl⟩
   have hpo : p ∈ pathsOf old := mem_pathsOf.mpr (Or.inr (Or.inr hpf))
-  have hnb : ¬ ∃ e ∈ new.symlinks, isPrefix e.1 p = true := by
-    rintro ⟨e, he', hpre⟩
-    have := Ensured'.not_below_of_src ho hn hb hs he'
-    rw [hpre] at this
-    cases this
   refine ⟨⟨ho.ne hpo, ?_, fun h => ho.nodd hpo (mem_of_mem_dropLast h)⟩, ?_⟩
   · rcases ho.parent_mem hpo with h0 | h0
     · rw [h0]; exact isDir_nil _
-    · by_cases h1 : p.dropLast ∈ new.dirs
-      · exact he.dirs _ h1
-      · by_cases h2 : p.dropLast ∈ new.symlinks.map (·.1)
-        · exfalso
-          obtain ⟨e, he1, he2⟩ := List.mem_map.mp h2
-          apply hnb
-          refine ⟨e, he1, ?_⟩
-          rw [he2]
-          exact isPrefix_dropLast_self (ho.ne hpo)
-        · simp only [IsDir]
-          rw [he.other _ h1 h2, if_neg]
-          · exact get_dir_treeOfBuild ho h0
-          · rintro ⟨e, he1, hpre⟩
-            exact hnb ⟨e, he1, isPrefix_of_dropLast hpre⟩
-  · rw [he.other p (hb.sources p hs).1 (hb.sources p hs).2, if_neg hnb]
+    · exact he.oldDir ho h0
+  · rw [he.other p (hb.sources p hs)]
     exact get_file_treeOfBuild ho hp
 
 /-! ### the destinations of the transposition phase: `XSlot`s, the soft paths being the new file paths -/
 
 /-- a new file path is a place where `copy` and `move` can put the file, whatever the old build had there: nothing,
     a regular file, a symlink or an EMPTY directory (`emptyDir`) -/
-theorem Ensured'.xslot_of_newfile {old new : Build} {w : Work} (ho : BWF old) (hn : BWF new) (hb : BKC old new w)
-    {t₁ : Tree} (he : Ensured' new (treeOfBuild old) t₁) {p : Path} (hp : p ∈ new.files.map (·.1)) :
+theorem Ensured.xslot_of_newfile {old new : Build} {w : Work} (ho : BWF old) (hn : BWF new) (hb : BKC old new w)
+    {t₁ : Tree} (he : Ensured new (treeOfBuild old) t₁) {p : Path} (hp : p ∈ new.files.map (·.1)) :
     XSlot (fun q => q ∈ new.files.map (·.1)) t₁ p := by
   have hpn : p ∈ pathsOf new := mem_pathsOf.mpr (Or.inr (Or.inr hp))
   refine ⟨⟨he.plain_of_new hn hpn, fun s hs => hn.not_below_file hpn hs⟩, Or.inr hp, ?_⟩
@@ -591,13 +506,11 @@ theorem Ensured'.xslot_of_newfile {old new : Build} {w : Work} (ho : BWF old) (h
     have := hb.emptyDir p hd hp q hqo
     rw [hq] at this
     cases this
-  rw [he.other q (fun h => hqn (mem_pathsOf.mpr (Or.inl h))) (fun h => hqn (mem_pathsOf.mpr (Or.inr (Or.inl h))))]
-  split
-  · rfl
-  · exact get_none_treeOfBuild hq0 hqo
+  rw [he.other q (fun h => hqn (mem_pathsOf.mpr (Or.inl h)))]
+  exact get_none_treeOfBuild hq0 hqo
 
-theorem Ensured'.xslot_of_temp {old new : Build} (hn : BWF new) {t₁ : Tree}
-    (he : Ensured' new (treeOfBuild old) t₁) {p : Path} (hp : p ∈ new.files.map (·.1)) {k : Nat}
+theorem Ensured.xslot_of_temp {old new : Build} (hn : BWF new) {t₁ : Tree}
+    (he : Ensured new (treeOfBuild old) t₁) {p : Path} (hp : p ∈ new.files.map (·.1)) {k : Nat}
     (hnot : seedName p k ∉ pathsOf old ++ pathsOf new) :
     XSlot (fun q => q ∈ new.files.map (·.1)) t₁ (seedName p k) ∧ t₁.get (seedName p k) = none := by
   have hpn : p ∈ pathsOf new := mem_pathsOf.mpr (Or.inr (Or.inr hp))
@@ -623,11 +536,11 @@ theorem Ensured'.xslot_of_temp {old new : Build} (hn : BWF new) {t₁ : Tree}
     exact get_none_under_nondir he.inv (by rw [hg]; simp) hq
 
 /-- a transposition source is not below a new file path -/
-theorem Ensured'.xplain_of_src {old new : Build} {w : Work} (ho : BWF old) (hn : BWF new) (hb : BKC old new w)
-    {t₁ : Tree} (he : Ensured' new (treeOfBuild old) t₁) {p : Path} {d : List Byte}
+theorem Ensured.xplain_of_src {old new : Build} {w : Work} (ho : BWF old) (hn : BWF new) (hb : BKC old new w)
+    {t₁ : Tree} (he : Ensured new (treeOfBuild old) t₁) {p : Path} {d : List Byte}
     (hs : p ∈ srcsOf old new w) (hp : (p, d) ∈ old.files) :
     XPlain (fun q => q ∈ new.files.map (·.1)) t₁ p ∧ t₁.get p = some (.file d) := by
-  obtain ⟨hpl, hg⟩ := he.oldFile ho hn hb hs hp
+  obtain ⟨hpl, hg⟩ := he.oldFile' ho hb hs hp
   have hpo : p ∈ pathsOf old := mem_pathsOf.mpr (Or.inr (Or.inr (List.mem_map.mpr ⟨_, hp, rfl⟩)))
   refine ⟨⟨hpl, ?_⟩, hg⟩
   intro s hsf
@@ -642,7 +555,7 @@ theorem Ensured'.xplain_of_src {old new : Build} {w : Work} (ho : BWF old) (hn :
 
 /-! ### transpositions -/
 
-/-- the tree after the transposition phase, relative to the tree `t₁` after `ensureAll` -/
+/-- the tree after the transposition phase, relative to the tree `t₁` after `ensureDirs` -/
 structure Transposed' (old new : Build) (w : Work) (t₁ t₂ : Tree) : Prop where
   inv : TInv t₂
   /-- outside the new file paths only regular files have changed -/
@@ -654,7 +567,7 @@ structure Transposed' (old new : Build) (w : Work) (t₁ t₂ : Tree) : Prop whe
 theorem transpositions_spec' {old new : Build} {w : Work} (ho : BWF old) (hn : BWF new) (hb : BKC old new w)
     (hw : WOK old new w) {o₁ o₂ : List Path}
     (h₁ : o₁.Perm (srcsOf old new w)) (h₂ : o₂.Perm (srcsOf old new w)) {t₁ : Tree}
-    (he : Ensured' new (treeOfBuild old) t₁) :
+    (he : Ensured new (treeOfBuild old) t₁) :
     ∃ t₂, applyTranspositions old new w o₁ o₂ t₁ = .ok t₂ ∧ Transposed' old new w t₁ t₂ := by
   have hT2 : ∀ tr ∈ tsOf old new w, ∃ d, (tr.targetPath, d) ∈ old.files ∧ (tr.outputPath, d) ∈ new.files := by
     intro tr htr
@@ -695,9 +608,10 @@ theorem transpositions_spec' {old new : Build} {w : Work} (ho : BWF old) (hn : B
     have hp : p ∈ ovPaths new w := by
       simp only [ovPaths, List.mem_filterMap, Option.map_eq_some_iff]
       exact ⟨i, hi, (p, d), hf, rfl⟩
+    have hpf : p ∈ new.files.map (·.1) := List.mem_map.mpr ⟨_, mem_files_of_getElem? hf, rfl⟩
     obtain ⟨e, he1, he2⟩ := List.mem_map.mp f2
     refine ⟨e.2, ?_⟩
-    rw [a5 p hp f2, he.get_newfile hn (List.mem_map.mpr ⟨_, mem_files_of_getElem? hf, rfl⟩), ← he2]
+    rw [a5 p hp f2, he.other p (fun h => hn.dir_not_file h hpf), ← he2]
     exact get_file_treeOfBuild ho (p := e.1) (d := e.2) he1
 
 /-! ### staged moves onto a symlink or an empty directory -/
@@ -804,10 +718,11 @@ theorem stageFold_spec' {new : Build} (hinj : FilesInj new) : ∀ (L : List Nat)
 /-! ### putting the phases after the transpositions together -/
 
 theorem finish_spec' {old new : Build} {w : Work} (ho : BWF old) (hn : BWF new) (hb : BKC old new w)
-    (hw : WOK old new w) {t₁ t₂ : Tree} (he : Ensured' new (treeOfBuild old) t₁)
+    (hw : WOK old new w) {t₁ t₂ : Tree} (he : Ensured new (treeOfBuild old) t₁)
     (ht : Transposed' old new w t₁ t₂) :
-    ∃ t₃ t₄ t₅, applyMoves new w t₂ = .ok t₃ ∧ applyOverlays new w t₃ = .ok t₄ ∧
-      deleteGhosts old new t₄ = .ok t₅ ∧ TInv t₅ ∧ ∀ p, t₅.get p = (treeOfBuild new).get p := by
+    ∃ t₃ t₄ t₅ t₆, applyMoves new w t₂ = .ok t₃ ∧ applyOverlays new w t₃ = .ok t₄ ∧
+      new.symlinks.foldlM (fun t (p, d) => ensureSymlink t p d) t₄ = .ok t₅ ∧
+      deleteGhosts old new t₅ = .ok t₆ ∧ TInv t₆ ∧ ∀ p, t₆.get p = (treeOfBuild new).get p := by
   have hinj := hn.filesInj
   have hfile_mem : ∀ {i : Nat} {p : Path} {d : List Byte}, new.files[i]? = some (p, d) →
       p ∈ new.files.map (·.1) := fun hf => List.mem_map.mpr ⟨_, mem_files_of_getElem? hf, rfl⟩
@@ -815,17 +730,8 @@ theorem finish_spec' {old new : Build} {w : Work} (ho : BWF old) (hn : BWF new) 
   have hout_ne : ∀ q, q ∉ new.files.map (·.1) → ∀ tr ∈ tsOf old new w, tr.outputPath ≠ q :=
     fun q hq tr htr h => hq (h ▸ tsOf_new htr)
   -- what `t₁` holds outside the new build
-  have h1_other : ∀ q, q ∉ pathsOf new →
-      t₁.get q = if ∃ e ∈ new.symlinks, isPrefix e.1 q = true then none else (treeOfBuild old).get q :=
+  have h1_other : ∀ q, q ∉ pathsOf new → t₁.get q = (treeOfBuild old).get q :=
     fun q hq => he.other q (fun h => hq (mem_pathsOf.mpr (Or.inl h)))
-      (fun h => hq (mem_pathsOf.mpr (Or.inr (Or.inl h))))
-  -- staged moves
-  have hmove_not_output : ∀ i ∈ w.moveFiles, ∀ p d, new.files[i]? = some (p, d) →
-      ∀ tr ∈ tsOf old new w, tr.outputPath ≠ p := by
-    intro i hi p d hf tr htr hpp
-    obtain ⟨st, hst, d1, d2, e1, _⟩ := mem_tsOf.mp htr
-    have : st.1 = i := hinj _ _ _ _ _ _ e1 hf hpp
-    exact (hw.excl₁ i (this ▸ List.mem_map.mpr ⟨st, hst, rfl⟩)).2 hi
   -- a new path is still plain after the transpositions: its parent is a new directory
   have hplain2 : ∀ p ∈ pathsOf new, Plain t₂ p := by
     intro p hpn
@@ -834,6 +740,7 @@ theorem finish_spec' {old new : Build} {w : Work} (ho : BWF old) (hn : BWF new) 
     rcases hn.parent_mem hpn with h0 | h0
     · rw [h0]; exact isDir_nil _
     · exact (ht.same.isDir (hn.dir_not_file h0)).mpr (he.dirs _ h0)
+  -- staged moves
   obtain ⟨t₃, h3, hI3, ha3, hf3⟩ := stageFold_spec' hinj w.moveFiles t₂ ht.inv hw.nodupM (by
     intro i hi
     obtain ⟨p, d, hf, hpo⟩ := hw.move i hi
@@ -856,9 +763,7 @@ theorem finish_spec' {old new : Build} {w : Work} (ho : BWF old) (hn : BWF new) 
       cases this
     rw [ht.frame q (fun h => hqo (mem_pathsOf.mpr (Or.inr (Or.inr (srcsOf_old h)))))
       (hout_ne q (fun h => hqn (mem_pathsOf.mpr (Or.inr (Or.inr h))))), h1_other q hqn]
-    split
-    · rfl
-    · exact get_none_treeOfBuild hq0 hqo) (by
+    exact get_none_treeOfBuild hq0 hqo) (by
     intro i _ j _ p d p' d' hf hf'
     exact hn.not_below_file (mem_pathsOf.mpr (Or.inr (Or.inr (hfile_mem hf')))) (hfile_mem hf))
   have h23 : ∀ q, q ∉ new.files.map (·.1) → t₃.get q = t₂.get q := by
@@ -899,51 +804,79 @@ theorem finish_spec' {old new : Build} {w : Work} (ho : BWF old) (hn : BWF new) 
     intro q hqn hqs
     have hqf : q ∉ new.files.map (·.1) := fun h => hqn (mem_pathsOf.mpr (Or.inr (Or.inr h)))
     rw [h24 q hqf, ht.frame q hqs (hout_ne q hqf)]
-  -- the new build is in place
-  have hnewOK : ∀ p ∈ pathsOf new, t₄.get p = (treeOfBuild new).get p := by
-    intro p hp
-    rcases mem_pathsOf.mp hp with hd | hs | hf
-    · rw [get_dir_treeOfBuild hn hd, h34 p (hn.dir_not_file hd)]
-      exact hdir3 p hd
-    · obtain ⟨e, he1, he2⟩ := List.mem_map.mp hs
-      rw [← he2, get_symlink_treeOfBuild hn (p := e.1) (d := e.2) he1,
-        h24 e.1 (by rw [he2]; exact hn.symlink_not_file hs)]
-      have := ht.same.out e.1 (by rw [he2]; exact hn.symlink_not_file hs)
-      rw [he.symlinks e he1] at this
-      exact nf_eq_symlink.mp this
-    · obtain ⟨e, he1, he2⟩ := List.mem_map.mp hf
-      obtain ⟨i, hi, hie⟩ := List.mem_iff_getElem.mp he1
-      have hfi : new.files[i]? = some (e.1, e.2) := by
-        rw [List.getElem?_eq_getElem hi, hie]
-      rw [← he2, get_file_treeOfBuild hn (p := e.1) (d := e.2) he1]
-      rcases hw.cover i hi with hc | hc | hc
-      · -- output of a transposition
-        obtain ⟨st, hst, hsti⟩ := List.mem_map.mp hc
-        have h2 := ht.outputs st hst e.1 e.2 (by rw [hsti]; exact hfi)
-        have hx := hw.excl₁ i hc
-        rw [hf4, hf3, h2]
-        · intro j hj p' d' hf' hpp
-          have := hinj _ _ _ _ _ _ hfi hf' hpp
-          subst this
-          exact hx.2 hj
-        · intro j hj p' d' hf' hpp
-          have := hinj _ _ _ _ _ _ hfi hf' hpp
-          subst this
-          exact hx.1 hj
-      · exact ha4 i hc e.1 e.2 hfi
-      · rw [hf4, ha3 i hc e.1 e.2 hfi]
-        intro j hj p' d' hf' hpp
+  -- the new directories and the new files are in place
+  have hdir4 : ∀ q ∈ new.dirs, t₄.get q = some .dir := by
+    intro q hq
+    rw [h34 q (hn.dir_not_file hq)]
+    exact hdir3 q hq
+  have hfiles4 : ∀ e ∈ new.files, t₄.get e.1 = some (.file e.2) := by
+    intro e he1
+    obtain ⟨i, hi, hie⟩ := List.mem_iff_getElem.mp he1
+    have hfi : new.files[i]? = some (e.1, e.2) := by
+      rw [List.getElem?_eq_getElem hi, hie]
+    rcases hw.cover i hi with hc | hc | hc
+    · -- output of a transposition
+      obtain ⟨st, hst, hsti⟩ := List.mem_map.mp hc
+      have h2 := ht.outputs st hst e.1 e.2 (by rw [hsti]; exact hfi)
+      have hx := hw.excl₁ i hc
+      rw [hf4, hf3, h2]
+      · intro j hj p' d' hf' hpp
         have := hinj _ _ _ _ _ _ hfi hf' hpp
         subst this
-        exact hw.excl₂ i hj hc
-  have hstray : ∀ q, q ≠ [] → q ∉ pathsOf new → q ∉ pathsOf old → t₄.get q = none := by
+        exact hx.2 hj
+      · intro j hj p' d' hf' hpp
+        have := hinj _ _ _ _ _ _ hfi hf' hpp
+        subst this
+        exact hx.1 hj
+    · exact ha4 i hc e.1 e.2 hfi
+    · rw [hf4, ha3 i hc e.1 e.2 hfi]
+      intro j hj p' d' hf' hpp
+      have := hinj _ _ _ _ _ _ hfi hf' hpp
+      subst this
+      exact hw.excl₂ i hj hc
+  -- the new symlinks: whatever stands at the path of one of them — nothing, an old symlink, an old file (perhaps
+  -- renamed elsewhere by now), an old directory with all that is left below it — gives way; no path of the new
+  -- build is such a path or lies below one, so the new directories and files stay as they are
+  obtain ⟨t₅, h5, hI5, hs5, hf5⟩ := ensureSymlinks_spec' new.symlinks t₄ hI4 hn.symlinks_nodup
+    (fun e he' e' he'' => hn.not_below_symlink
+      (mem_pathsOf.mpr (Or.inr (Or.inl (List.mem_map.mpr ⟨e', he'', rfl⟩)))) he')
+    (by
+      intro e he'
+      have hep : e.1 ∈ pathsOf new := mem_pathsOf.mpr (Or.inr (Or.inl (List.mem_map.mpr ⟨e, he', rfl⟩)))
+      refine ⟨hn.ne hep, ?_, fun h => hn.nodd hep (mem_of_mem_dropLast h)⟩
+      rcases hn.parent_mem hep with h0 | h0
+      · rw [h0]; exact isDir_nil _
+      · exact hdir4 _ h0)
+  have hnb : ∀ p ∈ pathsOf new, ¬ ∃ e ∈ new.symlinks, isPrefix e.1 p = true := by
+    rintro p hp ⟨e, he', hpre⟩
+    have := hn.not_below_symlink hp he'
+    rw [hpre] at this
+    cases this
+  have h45 : ∀ q, q ∉ pathsOf new →
+      t₅.get q = if ∃ e ∈ new.symlinks, isPrefix e.1 q = true then none else t₄.get q :=
+    fun q hq => hf5 q (fun h => hq (mem_pathsOf.mpr (Or.inr (Or.inl h))))
+  -- the new build is in place
+  have hnewOK : ∀ p ∈ pathsOf new, t₅.get p = (treeOfBuild new).get p := by
+    intro p hp
+    rcases mem_pathsOf.mp hp with hd | hs | hf
+    · rw [get_dir_treeOfBuild hn hd, hf5 p (hn.dir_not_symlink hd), if_neg (hnb p hp)]
+      exact hdir4 p hd
+    · obtain ⟨e, he1, he2⟩ := List.mem_map.mp hs
+      rw [← he2, get_symlink_treeOfBuild hn (p := e.1) (d := e.2) he1]
+      exact hs5 e he1
+    · obtain ⟨e, he1, he2⟩ := List.mem_map.mp hf
+      rw [hf5 p (fun h => hn.symlink_not_file h hf), if_neg (hnb p hp), ← he2,
+        get_file_treeOfBuild hn (p := e.1) (d := e.2) he1]
+      exact hfiles4 e he1
+  have hstray : ∀ q, q ≠ [] → q ∉ pathsOf new → q ∉ pathsOf old → t₅.get q = none := by
     intro q hq0 hqn hqo
-    rw [h14 q hqn (fun h => hqo (mem_pathsOf.mpr (Or.inr (Or.inr (srcsOf_old h))))), h1_other q hqn]
+    rw [h45 q hqn]
     split
     · rfl
-    · exact get_none_treeOfBuild hq0 hqo
-  have hpre : PreGhost old new t₄ := by
-    refine ⟨hI4, hnewOK, hstray, ?_, ?_⟩
+    · rw [h14 q hqn (fun h => hqo (mem_pathsOf.mpr (Or.inr (Or.inr (srcsOf_old h))))), h1_other q hqn]
+      exact get_none_treeOfBuild hq0 hqo
+  have hpre : PreGhost old new t₅ := by
+    refine ⟨hI5, hnewOK, hstray, ?_, ?_⟩
     · -- ghosts: one below a path that has become a symlink is skipped; the parent chain of every other one is
       -- made of directories
       intro q hqo hqn hsk
@@ -956,7 +889,7 @@ theorem finish_spec' {old new : Build} {w : Work} (ho : BWF old) (hn : BWF new) 
         cases this
       intro j hj
       by_cases hj0 : j = 0
-      · subst hj0; simpa using isDir_nil t₄
+      · subst hj0; simpa using isDir_nil t₅
       have hq'd : q.take j ∈ old.dirs := ho.parents _ hqo j (by omega) hj
       have hq'pre : isPrefix (q.take j) q = true := isPrefix_take hj
       generalize q.take j = q' at hq'd hq'pre
@@ -979,22 +912,24 @@ theorem finish_spec' {old new : Build} {w : Work} (ho : BWF old) (hn : BWF new) 
               · exact h1 h
               · exact h2 h
               · exact h3 h
-            rw [h14 q' hq'n (fun h => ho.dir_not_file hq'd (srcsOf_old h)), h1_other q' hq'n, if_neg]
+            rw [h45 q' hq'n, if_neg, h14 q' hq'n (fun h => ho.dir_not_file hq'd (srcsOf_old h)),
+              h1_other q' hq'n]
             · exact get_dir_treeOfBuild ho hq'd
             · rintro ⟨e, he1, hpre⟩
               exact hsym ⟨e, he1, isPrefix_trans hpre hq'pre⟩
     · -- an old file or symlink that is not a new path has not become a directory
-      intro q hqo hqn hqd hd4
+      intro q hqo hqn hqd hd5
       have hqf : q ∉ new.files.map (·.1) := fun h => hqn (mem_pathsOf.mpr (Or.inr (Or.inr h)))
-      rw [h24 q hqf] at hd4
-      have h1 : t₁.get q = some .dir := by
-        have := ht.same.out q hqf
-        rw [hd4] at this
-        exact nf_eq_dir.mp this.symm
-      rw [h1_other q hqn] at h1
-      split at h1
-      · cases h1
-      · rcases mem_pathsOf.mp hqo with h | h | h
+      rw [h45 q hqn] at hd5
+      split at hd5
+      · cases hd5
+      · rw [h24 q hqf] at hd5
+        have h1 : t₁.get q = some .dir := by
+          have := ht.same.out q hqf
+          rw [hd5] at this
+          exact nf_eq_dir.mp this.symm
+        rw [h1_other q hqn] at h1
+        rcases mem_pathsOf.mp hqo with h | h | h
         · exact hqd h
         · obtain ⟨e, he1, he2⟩ := List.mem_map.mp h
           rw [← he2, get_symlink_treeOfBuild ho (p := e.1) (d := e.2) he1] at h1
@@ -1002,8 +937,9 @@ theorem finish_spec' {old new : Build} {w : Work} (ho : BWF old) (hn : BWF new) 
         · obtain ⟨e, he1, he2⟩ := List.mem_map.mp h
           rw [← he2, get_file_treeOfBuild ho (p := e.1) (d := e.2) he1] at h1
           cases h1
-  obtain ⟨t₅, h5, hI5, hg5⟩ := deleteGhosts_spec ho hn hpre
-  exact ⟨t₃, t₄, t₅, by rw [applyMoves_eq]; exact h3, by rw [applyOverlays_eq]; exact h4, h5, hI5, hg5⟩
+  obtain ⟨t₆, h6, hI6, hg6⟩ := deleteGhosts_spec ho hn hpre
+  exact ⟨t₃, t₄, t₅, t₆, by rw [applyMoves_eq]; exact h3, by rw [applyOverlays_eq]; exact h4, h5, h6,
+    hI6, hg6⟩
 
 /-- C02 with benign kind changes: the commit over the tree holding the old build yields a tree holding the
     new build. -/
@@ -1012,11 +948,11 @@ theorem commit_spec' {old new : Build} {w : Work} (ho : BWF old) (hn : BWF new) 
     (h₁ : o₁.Perm (srcsOf old new w)) (h₂ : o₂.Perm (srcsOf old new w)) :
     ∃ t', commit old new w o₁ o₂ (treeOfBuild old) = .ok t' ∧ TInv t' ∧
       ∀ p, t'.get p = (treeOfBuild new).get p := by
-  obtain ⟨t₁, e1, he⟩ := ensureAll_spec' ho hn hb.dirOrder
+  obtain ⟨t₁, e1, he⟩ := ensureDirsPhase_spec' ho hn hb.dirOrder
   obtain ⟨t₂, e2, ht⟩ := transpositions_spec' ho hn hb hw h₁ h₂ he
-  obtain ⟨t₃, t₄, t₅, e3, e4, e5, hI5, hg5⟩ := finish_spec' ho hn hb hw he ht
-  refine ⟨t₅, ?_, hI5, hg5⟩
-  simp only [commit, bind, Except.bind, e1, e2, e3, e4, e5]
+  obtain ⟨t₃, t₄, t₅, t₆, e3, e4, e5, e6, hI6, hg6⟩ := finish_spec' ho hn hb hw he ht
+  refine ⟨t₆, ?_, hI6, hg6⟩
+  simp only [commit, bind, Except.bind, e1, e2, e3, e4, e5, e6]
 
 /-- no kind change at all is a benign kind change -/
 theorem NKC.toBKC {old new : Build} (w : Work) (ho : BWF old) (hn : BWF new) (hk : NKC old new) :
@@ -1025,10 +961,7 @@ theorem NKC.toBKC {old new : Build} (w : Work) (ho : BWF old) (hn : BWF new) (hk
   · intro p hd hf
     cases hk _ _ _ (kindOf_dir hd) (kindOf_file hn hf)
   · intro p hp
-    exact hk.old_file ho hn (srcsOf_old hp)
-  · intro e he hd
-    have hes : e.1 ∈ new.symlinks.map (·.1) := List.mem_map.mpr ⟨e, he, rfl⟩
-    cases hk _ _ _ (kindOf_dir hd) (kindOf_symlink hn hes)
+    exact (hk.old_file ho hn (srcsOf_old hp)).1
   · have : ∀ a ∈ new.dirs, ∀ b ∈ new.dirs, isPrefix b a = true →
         b ∉ old.files.map (·.1) ∧ b ∉ old.symlinks.map (·.1) := by
       intro a _ b hb _
